@@ -33,7 +33,8 @@ n=len(metas)
 first=sum(1 for m in metas if m['check'].get('first_pass_detected_by_own_property'))
 firstany=sum(1 for m in metas if m['check'].get('first_pass_detected_by_own_property') or m['check'].get('first_pass_other_properties'))
 now=sum(1 for m in metas if m['check'].get('detected_by_own_property'))
-t="%d changes from %d agents (one agent per property, up to three changes each).\n\n"%(n,len(set(m['property'] for m in metas)))
+r3=[m for m in metas if m.get('round')==3]
+t="%d changes: %d from a first round of 20 agents (one per property, up to three changes each; ids -1 to -3) and %d from a later, held-out round of 20 fresh agents asked for one less obvious change each (ids -4, §8.3).\n\n"%(n,n-len(r3),len(r3))
 t+="| id | change (agent's title) | confirmed by me: builds / 120 tests / demo clean->patched | first pass | now: reported by |\n|---|---|---|---|---|\n"
 for m in metas:
     c=m['confirmed']; ch=m['check']
@@ -43,7 +44,11 @@ for m in metas:
     nowtxt=('%s %s'%(mm.group(2),mm.group(3)[:70]) if mm else rep[:80]) if ch.get('detected_by_own_property') else '**missed**'
     title=(m.get('title') or '').replace('|','/')[:110]
     t+="| %s | %s | %s / %s / %s->%s | %s | %s |\n"%(m['id'],title,'ok' if c['builds'] else 'NO','ok' if c['baseline_tests_pass'] else 'flaky/NO',c['demo_on_clean_tree'],c['demo_with_patch'],fp,nowtxt.replace('|','/'))
-t+="\nFirst pass (the checks as they stood when the agents were started): %d of %d reported by the property attacked, %d of %d by some property. After the strengthening described in 8.2: %d of %d.\n\n"%(first,n,firstany,n,now,n)
+r12=[m for m in metas if m.get('round')!=3]
+f12=sum(1 for m in r12 if m['check'].get('first_pass_detected_by_own_property'))
+fa12=sum(1 for m in r12 if m['check'].get('first_pass_detected_by_own_property') or m['check'].get('first_pass_other_properties'))
+f3=sum(1 for m in r3 if m['check'].get('first_pass_detected_by_own_property'))
+t+="\nFirst pass (the checks as they stood when the agents of that round were started): round 1 %d of %d reported by the property attacked (%d by some property); round 3 %d of %d. After the strengthening described in 8.2 and 8.3: %d of %d.\n\n"%(f12,len(r12),fa12,f3,len(r3),now,n)
 put('seeded',t+open(V+'/tools/design_seeded_notes.md').read())
 # benign (two rounds)
 def bentable(dirname, scope_note):
@@ -65,17 +70,21 @@ def bentable(dirname, scope_note):
     return t,bm,nb,fsil,nsil
 t1,bm1,n1,f1,s1=bentable('benign','')
 t2,bm2,n2,f2,s2=bentable('benign2',' (own property only)')
+t3,bm3,n3,f3,s3=bentable('benign3','')
 if n1:
     t="**Round 1**: %d changes from 20 agents (four per property). First measurement: %d of %d silent. Now: **%d of %d silent**.\n\n"%(n1,f1,n1,s1,n1)
     t+=t1+"\n"
     if n2:
         t+="**Round 2** (held out: written after the machinery had been corrected on round 1, by fresh agents asked for larger, combined clean-ups; three per property): %d changes. First measurement, attacked property only: %d of %d silent. Now, all 20 rule sets: **%d of %d silent**.\n\n"%(n2,f2,n2,s2,n2)
         t+=t2+"\n"
+    if n3:
+        t+="**Round 3** (held out again: written after the corrections for round 2, two larger clean-ups per property; measured from the start on all 20 rule sets): %d changes. First measurement: %d of %d silent. Now: **%d of %d silent**.\n\n"%(n3,f3,n3,s3,n3)
+        t+=t3+"\n"
     t+=open(V+'/tools/design_benign_notes.md').read()
-    rem=[m for m in bm1+bm2 if m.get('verdict')!='silent']
+    rem=[m for m in bm1+bm2+bm3 if m.get('verdict')!='silent']
     if rem:
         for m in rem:
-            rnd='round 1' if m in bm1 else 'round 2'
+            rnd='round 1' if m in bm1 else ('round 2' if m in bm2 else 'round 3')
             first=(m.get('alarms') or [''])[0]
             mm=re.match(r'(C\d\d): (violated|undecided) (R[0-9.]+|INTERNAL|SELFTEST) (.*?) at ',first)
             t+="* **%s** (%s; %s): %s\n"%(m['id'],rnd,(m.get('title') or '')[:100],('%s %s %s'%(mm.group(1),mm.group(3),mm.group(4)[:90])) if mm else first[:120])
